@@ -4,10 +4,11 @@
 # 2. applies it to /repo, runs the property's quick check, reverts /repo
 # 3. stores patch, demo and meta.json under /verif/seeded/<name>/
 export GOFLAGS=-mod=mod GOPROXY=off GOSUMDB=off GOTOOLCHAIN=local
-prop="$1"; src="$2"; name="$3"; race="$4"
+prop="$1"; src="$2"; name="$3"; race="$4"; demodir="$5"
 out=/verif/seeded/$name; mkdir -p "$out"
 cp "$src/patch.diff" "$out/patch.diff"; cp "$src/demo_test.go" "$out/demo_test.go.txt"; [ -f "$src/README.md" ] && cp "$src/README.md" "$out/README.agent.md"
 pkgdir=$(grep -m1 '^+++ b/' "$out/patch.diff" | sed 's#+++ b/##' | xargs dirname)
+[ -n "$demodir" ] && pkgdir="$demodir"
 wt=/tmp/wt_eval_$$; git -C /repo worktree add -q "$wt" HEAD || exit 2
 rflag=""; [ "$race" = "race" ] && rflag="-race"
 cp "$src/demo_test.go" "$wt/$pkgdir/zz_seed_demo_test.go"
